@@ -212,8 +212,17 @@ def run_layout(O, layout, K, in_kinds=("Number", "X", "Z", "C"), exp_kinds=("Num
         def scen(mod2, kinds=kinds):
             f = facts(mod2)
             own = [expansion_scenario(layout, kinds, f["values"], f["bits"], rp) for rp in (1, 2, 3)]
-            return own if rep is None else (rep.battery + own)
-        judge = B.literal_judge if rep is None else (lambda obs, sc: (rep.judge(obs, sc) or (B.literal_judge(obs, sc) if sc.expect else None)))
+            from .refmodel import reference_battery
+            return (own + reference_battery(("expansion",))) if rep is None else (rep.battery + own)
+
+        def judge(obs, sc):
+            if sc.expect and "ref_rows" in sc.expect:
+                from .refmodel import reference_judge_one
+                from .common import no_panic_judge
+                return no_panic_judge(reference_judge_one)(obs, sc)
+            if rep is None:
+                return B.literal_judge(obs, sc)
+            return rep.judge(obs, sc) or (B.literal_judge(obs, sc) if sc.expect else None)
         if p.outcome != "return":
             O.fail_path(p, "row expansion %s: %s" % (p.outcome, p.detail), facts, scen, judge)
             continue
